@@ -100,10 +100,9 @@ META.update({
         "per step, one / several mapping rows) vs independent scipy LPs with explicit equalities, constant rate within coarse intervals over DST, "
         "are bounded stand-ins, never counted as proved. " + PROOF_NOTE)),
     'C15': dict(level='other', assumptions=['A2', 'A3', 'A5'], explanation=(
-        "proved on the real source (fix_time_window case of the assembly contract, window as boolean mask): a variable is pinned only if one of its mapping "
-        "rows lies on a step of the window, every variable with such a row is pinned to the given value (also when only a later row of the variable lies in "
-        "the window), all other bounds and the costs untouched, frame. Bounded: the other window forms (date, index array), re-optimised values, variables "
-        "spanning several steps (own frequency, periodicity), the window handed to the split set-up, plants. " + PROOF_NOTE)),
+        "proved on the real source (fix_time_window case of the assembly contract): pinned only if in the window, others untouched, costs untouched, "
+        "frame. The converse (every window variable is pinned) needs a first-occurrence argument: bounded scenarios incl. variables spanning several "
+        "steps (own frequency, periodicity) and multi-row variables. " + PROOF_NOTE)),
     'C16': dict(level='other', assumptions=['A2', 'A3', 'A5', 'A6'], explanation=(
         "proved: ScaledAsset.setup_optim_problem LP data for bases with one mapping row per variable. The step from the LP data to 'behaves like the "
         "base with capacities x s/S' is A6 + bounded scenarios. StructuredAsset.setup_optim_problem from the real source: inner set-up on clipped "
